@@ -35,7 +35,7 @@ Base == [sc |-> 0, mode |-> "compliant", id |-> "", sni |-> "example.com", ver |
          cert |-> "ecdsa", alpn |-> <<>>, force_suite |-> 0, force_group |-> 0, force_alpn |-> "", hrr_cookie |-> 0,
          legacy_only |-> FALSE, canary |-> 0, sid_echo |-> "", compression |-> 0, psk_index |-> 0, hrr_group |-> 0,
          omit |-> TRUE, remove_sni |-> FALSE, ekm |-> 0,
-         alps_cp |-> 0, alps12 |-> FALSE, client_alps |-> "", alps_settings |-> <<>>]
+         alps_cp |-> 0, alps12 |-> FALSE, client_alps |-> "", alps_settings |-> <<>>, client_auth |-> 0, resume |-> FALSE]
 
 \* ---- the compliant grid (C10, C11, C18): every choice the hello offers and the server can make
 CertKinds(suite, ver) == IF ver = 772 THEN {"ecdsa", "rsa", "ed25519"}
@@ -67,12 +67,22 @@ C12Set ==
         {[Adv(x) EXCEPT !.force_suite = s] : s \in (IF x.ver = 772 THEN Impl13 ELSE {t \in Impl12 : SuiteFitsVersion(t, x.ver) /\ (SuiteRec(t).ECSign <=> x.cert = "ecdsa")}) \ o.suites}
         \* unoffered group in the TLS 1.3 key_share / as TLS 1.2 curve; HRR naming an unoffered or already shared group
         \cup {[Adv(x) EXCEPT !.force_group = g] : g \in (IF x.ver = 772 THEN ImplGroups ELSE (IF SuiteRec(x.suite).ECDHE THEN Classical ELSE {})) \ o.groups}
-        \cup (IF x.ver = 772 /\ x.group \notin o.shares THEN {[Adv(x) EXCEPT !.hrr_group = g] : g \in (o.shares \cap ImplGroups) \cup ((ImplGroups \ o.groups) \cap Classical)} ELSE {})
+        \* (the server really wants a group g0 the hello lists without a share, the HRR on the wire names g instead;
+        \*  every share the hello carries is tried as g, so is every classical group it does not list)
+        \cup (IF x.ver = 772 THEN {[Adv(x) EXCEPT !.group = g0, !.hrr_group = g] :
+                                      g0 \in {h \in (o.groups \cap ImplGroups) \ o.shares : \A k \in (o.groups \cap ImplGroups) \ o.shares : h <= k},
+                                      g \in (o.shares \cap ImplGroups) \cup ((ImplGroups \ o.groups) \cap Classical)} ELSE {})
         \* unoffered ALPN protocol
         \cup {[Adv(x) EXCEPT !.force_alpn = "zz", !.alpn = <<"zz">>]}
         \* session id not echoed, compression method, PSK identity nobody offered
         \cup (IF x.ver = 772 THEN {[Adv(x) EXCEPT !.sid_echo = "flip"], [Adv(x) EXCEPT !.psk_index = 1], [Adv(x) EXCEPT !.psk_index = 3]} ELSE {})
         \cup {[Adv(x) EXCEPT !.compression = 1]}
+        \* the same deviations in the ServerHello that follows a (valid) HelloRetryRequest
+        \cup (IF x.ver = 772 THEN
+                UNION {{[Adv(x) EXCEPT !.group = g0, !.sid_echo = "flip"], [Adv(x) EXCEPT !.group = g0, !.compression = 1],
+                        [Adv(x) EXCEPT !.group = g0, !.psk_index = 1], [Adv(x) EXCEPT !.group = g0, !.force_alpn = "zz", !.alpn = <<"zz">>]}
+                       : g0 \in {h \in (o.groups \cap ImplGroups) \ o.shares : \A k \in (o.groups \cap ImplGroups) \ o.shares : h <= k}}
+              ELSE {})
   IN UNION {dev(x) : x \in Reps}
 
 \* ---- versions (C13): any server version, honest or negotiating from legacy_version, with/without sentinel
@@ -87,9 +97,14 @@ C13Set == {[Adv(Base) EXCEPT !.id = id, !.ver = v, !.legacy_only = lo, !.canary 
                              !.group = AnyGroup(id, v, AnySuite(id, v)),
                              !.cert = IF AnySuite(id, v) # 0 /\ v < 772 /\ ~SuiteRec(AnySuite(id, v)).ECSign THEN "rsa" ELSE "ecdsa"] :
              id \in IDs, v \in 769..772, lo \in BOOLEAN, cn \in {0, 1, 2}}
+          \* the same TLS 1.2 answers when the server can resume a session of an earlier TLS 1.2 connection
+          \cup {[Adv(Base) EXCEPT !.id = id, !.ver = 771, !.legacy_only = lo, !.canary = cn, !.suite = AnySuite(id, 771),
+                                  !.group = AnyGroup(id, 771, AnySuite(id, 771)), !.resume = TRUE,
+                                  !.cert = IF AnySuite(id, 771) # 0 /\ ~SuiteRec(AnySuite(id, 771)).ECSign THEN "rsa" ELSE "ecdsa"] :
+                  id \in {i \in IDs : 771 \in Offers[i].versions}, lo \in BOOLEAN, cn \in {0, 1, 2}}
 
 \* ---- HelloRetryRequest (C17): every offered classical group without a share, with and without cookie
-C17Set == UNION {{[x EXCEPT !.group = g, !.hrr_cookie = ck] : g \in (Offers[x.id].groups \cap Classical) \ Offers[x.id].shares, ck \in {0, 1, 255}}
+C17Set == UNION {{[x EXCEPT !.group = g, !.hrr_cookie = ck] : g \in (Offers[x.id].groups \cap Classical) \ Offers[x.id].shares, ck \in {0, 1, 255, 4000}}
                  : x \in {y \in Reps : y.ver = 772}}
 
 \* ---- application settings (C22): ALPS parrots x offered code point x client settings map x ALPN x version
